@@ -95,10 +95,13 @@ class Scope(FortranObj):
             return copy.copy(self.children)
         pub_children = []
         for child in self.children:
-            if (child.vis < 0) or ((self.def_vis < 0) and (child.vis <= 0)):
-                continue
+            # The procedures of an unnamed interface block are entities of this
+            # scope: they are filtered one by one with this scope's default
             if child.name.startswith("#GEN_INT"):
+                child.def_vis = self.def_vis
                 pub_children.append(child)
+                continue
+            if (child.vis < 0) or ((self.def_vis < 0) and (child.vis <= 0)):
                 continue
             pub_children.append(child)
         return pub_children
